@@ -141,6 +141,25 @@ def run_prune(tier, funcs, index, enums, res, text):
                                                                       "-depth; printed entries, their order and the status are compared with the reference")
 
 
+def run_delete(tier, funcs, index, enums, res, text):
+    import c02_walk
+    for fm in (0, 2):
+        r = c02_walk.explore_delete(funcs, index, enums, text, fm)
+        res["functions_executed"].update(r.pop("functions_executed"))
+        for v in r.pop("violations"):
+            res["violations"].append({"key": "delete | " + v["what"].split(":")[-1].strip()[:50].split("[")[0], "summary": v["what"], "replayer": "delete_decision", "config": v.get("config"), "what": v["what"]})
+        for k, c in r.pop("unsupported").items():
+            res["unsupported"][k] = res["unsupported"].get(k, 0) + c
+        r["bound"] = r["kind"]
+        r["inputs_covered"] = r.pop("checks")
+        res["runs"].append(r)
+    res["target"] = ("the real parser on '-name X -delete', process_dir, DeleteMatcher::{matches,delete}, WalkEntry::{file_type,path_is_symlink,metadata} + from_walkdir over the port of "
+                     "walkdir's iterator and a model file system (remove_file / remove_dir with ENOTEMPTY, ENOTDIR, EISDIR)")
+    res["bounds"] = ("tree: r, r/a, r/d, r/d/f, r/d/g, r/d/g/h, r/d/k (link closing a cycle), r/d/m and r/l (dangling links), r/s (link to an empty directory elsewhere), r/z; X selects "
+                     "any subset of eight of them (symbolic); -P and -L; compared with the reference: the sequence of unlink/rmdir calls (post-order; a link is unlinked, also one -L "
+                     "descends; a directory is removed only when nothing is left in it), what is left afterwards, -delete implies -depth, status non-zero iff a removal failed or an entry was diagnosed")
+
+
 def run_exec(prop, tier, funcs, index, enums, res):
     import c08_exec
     kinds = ["multi", "multi_dir", "multi_quit", "multi_two"] if prop == "C08" else ["single", "single_dir"]
@@ -318,6 +337,8 @@ def main():
         res["target"], res["bounds"] = "", ""
         run_walk(tier, funcs, index, enums, res, text)
         run_prune(tier, funcs, index, enums, res, text)
+    elif prop == "C10":
+        run_delete(tier, funcs, index, enums, res, text)
     elif prop in ("C08", "C09"):
         run_exec(prop, tier, funcs, index, enums, res)
     elif prop == "C05":
